@@ -127,26 +127,26 @@ task reporting a finish time with a final state.  In any state `s'` that shows t
 recorded names (same pods), the task list found for the new refs reproduces the new refs, at any clock. -/
 theorem generate_stable (s s' : Sys) (now : Time) (rs : List TaskRef) (T1 : List Task) (hnd : (rs.map (·.name)).Nodup)
     (h : Consistent s rs T1) (hfin : ∀ t ∈ T1, TaskFinal t)
-    (hsame : ∀ n, lookTask s' n = lookTask s n) :
+    (hsame : ∀ n, OptSim (lookTask s n) (lookTask s' n)) :
     generateTaskRefs s'.clock (generateTaskRefs now rs T1)
       ((generateTaskRefs now rs T1).filterMap (fun r => lookTask s' r.name)) = generateTaskRefs now rs T1 := by
   have hok := h.taskOK
   have hG := generateTaskRefs_names_nodup now rs T1 hnd h.nodup hok
   have hc' := consistent_found s' (generateTaskRefs now rs T1) hG
-  refine generateTaskRefs_idem now s'.clock rs T1 _ hnd h.nodup hok hfin hc'.nodup hc'.taskOK ?_ ?_
+  refine generateTaskRefs_idem_sim now s'.clock rs T1 _ hnd h.nodup hok hfin hc'.nodup hc'.taskOK ?_ ?_
   · intro t ht
     obtain ⟨r, hr, hrt⟩ := List.mem_filterMap.mp ht
     exact List.mem_map.mpr ⟨r, hr, (lookTask_name hrt).symm⟩
   · intro g hg
     rw [findTask_filterMap (lookTask s') (fun n t h => lookTask_name h) _ hG g.name]
     have hgn : g.name ∈ (generateTaskRefs now rs T1).map (·.name) := List.mem_map.mpr ⟨g, hg, rfl⟩
-    rw [if_pos hgn, hsame]
+    rw [if_pos hgn]
     -- the name is a task's or a lost ref's
     have hnames := (generateTaskRefs_perm_canon now rs T1 hnd h.nodup hok).map (·.name)
     rw [canonRefs_names now rs T1 hok] at hnames
     have hgn' := hnames.mem_iff.mp hgn
     by_cases hin : g.name ∈ T1.map (·.name)
-    · rw [h.findTask_eq g.name hin]
+    · rw [h.findTask_eq g.name hin]; exact hsame g.name
     · have h1 : findTask T1 g.name = none := by
         cases hf : findTask T1 g.name with
         | none => rfl
@@ -155,7 +155,12 @@ theorem generate_stable (s s' : Sys) (now : Time) (rs : List TaskRef) (T1 : List
       rcases List.mem_append.mp hgn' with hx | hx
       · obtain ⟨r, hr, hrn⟩ := List.mem_map.mp hx
         cases hl : lookTask s g.name with
-        | none => rfl
+        | none =>
+          have := hsame g.name
+          rw [hl] at this
+          cases hl' : lookTask s' g.name with
+          | none => trivial
+          | some t' => rw [hl'] at this; exact absurd this (by simp [OptSim])
         | some t =>
           exfalso
           apply hin
